@@ -68,7 +68,7 @@ def plan(tier, seed):
 E_FORM = re.compile(r'^([-+]?)(\d?)\.(\d+)([EeDd]?)([-+])(\d{2,3})$')
 F_FORM = re.compile(r'^([-+]?)(\d*)\.(\d*)$')
 
-KINDS = ['digits', 'negative', 'zero', 'exp3-no-letter', 'exp3-letter', 'mix']
+KINDS = ['digits', 'negative', 'zero', 'exp3-no-letter', 'exp3-letter', 'wider-fixed', 'mix']
 
 
 def rdigits(rng, n, first_nonzero=True):
@@ -172,6 +172,26 @@ def make_variant(ctx, rng, lines, ref, kind, fraction):
                     # the blank in front must not be the only thing separating this number from the row index
                     if a - 1 < (t.layout[2] if t.has_I else t.layout[1]):
                         blank_before = False
+                    if k == 'wider-fixed':
+                        # a fixed-point number two or three characters wider than it is printed now, grown into the blanks on its
+                        # left (Fortran right-justifies: a pressure of 1.0e7 Pa under one of 1.0e5 Pa in an F12.2 column).  The first
+                        # row of each table keeps its width, so that rows below it are wider than the row the reader sees first
+                        m = F_FORM.match(text)
+                        lo = t.layout[2] if t.has_I else t.layout[1]
+                        j = a
+                        while j - 1 >= lo and line[j - 1] == ' ':
+                            j -= 1
+                        avail = (a - j) - 1
+                        if not m or r is t.rows[0] or avail < 2 or not m.group(2):
+                            continue
+                        grow = min(avail, rng.randint(2, 3))
+                        sign, ip, fp = m.groups()
+                        new = sign + rng.choice('123456789') + rdigits(rng, grow - 1, False) + ip + '.' + fp
+                        line = line[:a - grow] + new + line[b:]
+                        cells[ci] = (LR.fnum(new), a - grow, b)
+                        nchanged += 1
+                        ctx.see('variant_cell', '%s:%s' % (k, cell_form(text)))
+                        continue
                     if k == 'exp3-letter' and line[b:b + 1].strip():
                         # a three-digit exponent WITH the letter in a field that touches the next one is not
                         # something a Fortran Ew.d column prints (it drops the letter instead): not generated
@@ -535,6 +555,19 @@ def check_routes(ctx, lst, ref, cmp_, vk):
         for k in range(min(N - 1, 4)):
             lst.prev()
             judge('prev')
+    # diagnostics that visit other result sets on their way: afterwards the tables are those printed for the result set
+    # the reader says it is at
+    for i in sorted(set([0, N - 2])):
+        for route, act in (('after-convergence', lambda: lst.convergence), ('after-get_difference', lambda: lst.get_difference()),
+                           ('after-history', lambda: lst.history([(lst._tablenames[0], lst._table[lst._tablenames[0]].row_name[0],
+                                                                  lst._table[lst._tablenames[0]].column_name[0])]))):
+            with ctx.guard(cmp_.case, where='route:' + route) as g:
+                lst.index = i
+                act()
+            if g.raised is None:
+                # (whether the call leaves the reader where it was is not this property's matter: get_difference() does not)
+                ctx.count('diagnostic_calls_followed_by_table_reads')
+                judge(route)
     for i in sorted(set([0, N // 2, N - 1])):
         with ctx.guard(cmp_.case, where='route:time') as g:
             lst.index = (i + 1) % N
